@@ -42,6 +42,7 @@ type SpecEnv struct {
 	err   []string
 	inOld bool
 	ctxDone map[string]T
+	calleeFn *ssa.Function // when evaluating a callee's contract at a call site
 }
 
 func (u *Unit) newEnv(st *State) *SpecEnv {
@@ -358,6 +359,25 @@ func (u *Unit) evalIdent(env *SpecEnv, name string) SV {
 	if t := u.localType(name); t != nil {
 		return SV{V: u.freshOfType(env.st, "outofscope."+name, t), Typ: t}
 	}
+	if env.calleeFn != nil {
+		// a local of the callee mentioned in its postcondition: existential
+		for _, b := range env.calleeFn.Blocks {
+			for _, in := range b.Instrs {
+				if al, ok := in.(*ssa.Alloc); ok && al.Comment == name {
+					t := al.Type().(*types.Pointer).Elem()
+					key := "calleelocal." + name
+					if v, ok := env.names[key]; ok {
+						return v
+					}
+					v := SV{V: u.freshOfType(env.st, key, t), Typ: t}
+					if env.names != nil {
+						env.names[key] = v
+					}
+					return v
+				}
+			}
+		}
+	}
 	return env.fail("unknown identifier %q", name)
 }
 
@@ -667,6 +687,21 @@ func (u *Unit) evalCall(env *SpecEnv, x *ast.CallExpr) SV {
 		return env.fail("len of %s", t.Sort)
 	case "cap":
 		return SV{V: app(SInt, "scap", argT(0)), Typ: intT}
+	case "elemrow":
+		// elemrow(sliceExpr, ref): the contents (row) of backing array `ref`
+		// in the element heap of sliceExpr's element type
+		v := arg(0)
+		if v.Typ == nil {
+			return env.fail("elemrow: untyped slice")
+		}
+		st, ok := v.Typ.Underlying().(*types.Slice)
+		if !ok {
+			return env.fail("elemrow: not a slice")
+		}
+		hn, hs := elemHeapName(u.sortOf(st.Elem()))
+		return SV{V: Select(u.heapGet(env.hv, hn, hs), argT(1))}
+	case "wfslice":
+		return SV{V: app(SBool, "wfSlice", argT(0)), Typ: boolT}
 	case "sarr":
 		return SV{V: app(SInt, "sarr", argT(0))}
 	case "soff":
@@ -700,11 +735,20 @@ func (u *Unit) evalCall(env *SpecEnv, x *ast.CallExpr) SV {
 				return SV{V: as[n], Typ: env.u.lastArgType(id.Name, n)}
 			}
 		}
-		// no such call on this path: unconstrained value of the declared sort
+		// no such call on this path: unconstrained value of the declared sort/type
 		srt := SInt
 		if len(x.Args) == 3 {
 			if sid, ok := x.Args[2].(*ast.Ident); ok {
-				srt = specSort(sid.Name)
+				switch sid.Name {
+				case "Iface", "String", "Bool", "Int", "Slice":
+					srt = specSort(sid.Name)
+				default:
+					if t := u.resolveType(env, x.Args[2]); t != nil {
+						return SV{V: u.freshOfType(env.st, "noarg", t), Typ: t}
+					}
+				}
+			} else if t := u.resolveType(env, x.Args[2]); t != nil {
+				return SV{V: u.freshOfType(env.st, "noarg", t), Typ: t}
 			}
 		}
 		return SV{V: u.fresh("noarg", srt)}
@@ -932,12 +976,51 @@ func (u *Unit) tokenExpr(env *SpecEnv, g *SEGo) (string, int, bool) {
 // literal's block that mention `self`.
 func (u *Unit) closureFacts(st *State, c *Closure) {
 	fs := u.eng.spec.Funcs[relName(c.fn)]
-	if fs == nil {
+	if fs == nil || len(fs.Facts) == 0 {
 		return
 	}
-	for _, cl := range fs.Covers {
-		_ = cl
+	env := u.newEnv(st)
+	env.names = map[string]SV{"self": {V: c.id}}
+	for i, fv := range c.fn.FreeVars {
+		if i < len(c.binds) {
+			if p, ok := c.binds[i].(*Ptr); ok {
+				env.names[fv.Name()] = SV{V: u.load(st, p), Typ: fv.Type().(*types.Pointer).Elem()}
+			}
+		}
 	}
+	for _, f := range fs.Facts {
+		st.assume(u.evalBool(env, f.Expr))
+	}
+	u.note("closure facts of " + relName(c.fn) + " are justified by that literal's own verified contract (captured variables are assumed not to be reassigned after the literal is created)")
 }
 
-func (u *Unit) lastArgType(ev string, n int) types.Type { return nil }
+func (u *Unit) lastArgType(ev string, n int) types.Type {
+	if ts, ok := u.lastArgTypes[ev]; ok && n < len(ts) {
+		return ts[n]
+	}
+	return nil
+}
+
+// lockedExpr recognises locked(&x.mu, mode): "the caller holds this lock".
+func (u *Unit) lockedExpr(env *SpecEnv, c *Clause) (name string, base T, mode int, ok bool) {
+	g, isGo := c.Expr.(*SEGo)
+	if !isGo {
+		return
+	}
+	call, isCall := g.E.(*ast.CallExpr)
+	if !isCall {
+		return
+	}
+	id, isId := call.Fun.(*ast.Ident)
+	if !isId || id.Name != "locked" || len(call.Args) != 2 {
+		return
+	}
+	bl, isLit := call.Args[1].(*ast.BasicLit)
+	if !isLit {
+		return
+	}
+	mode, _ = strconv.Atoi(bl.Value)
+	v := u.evalExpr(env, call.Args[0])
+	name, base, ok = u.lockIdent(env.st, v.V)
+	return
+}
